@@ -45,8 +45,8 @@ LEVEL = 'exploration'
 RULE = ('case = creation history (8 in 10): 2-4 base tasks (names from a pool of 4; repeated names on '
         'distinct objects in 1 history out of 5), an initial run-task factory, and 1-10 (thorough: 1-16) '
         'operations drawn from one of five mixes (wide / Use-centred / stacking-centred / factory-centred / '
-        'statistics-centred): Use.from_func / using on one of 13 functions (two "def alpha", "def beta", two '
-        'lambdas, two callables with __qualname__ only, two functools.partial applications named alpha, two closures of one nested def with different captured values, two evaluations of one def with different defaults) or '
+        'statistics-centred): Use.from_func / using on one of 15 functions (two "def alpha", "def beta", two '
+        'lambdas, two callables with __qualname__ only, two functools.partial applications named alpha, two closures of one nested def with different captured values, two evaluations of one def with different defaults, two partial applications extending the positional arguments of another one) or '
         'stacked on an existing Use; injected task from the live pool (base tasks, Use tasks, RunTasks and '
         'stats tasks generated earlier; pool positions modulo the pool size, wrappers and UseRun objects '
         'counted from the most recent); key result / alt / stdout / None; positional or keyword kw0 / kw1 / kw2; '
@@ -121,7 +121,7 @@ JOBFILE = os.path.join(os.path.dirname(os.path.dirname(os.path.abspath(__file__)
 # generation (module constants: Hypothesis caches them)
 
 # NB: one_of() drops repeated element strategies, so weights are expressed with sampled_from.
-_FN = st.sampled_from([0, 0, 1, 1, 2, 3, 4, 5, 6, 7, 8, 9, 10, 9, 10, 11, 12])
+_FN = st.sampled_from([0, 0, 1, 1, 2, 3, 4, 5, 6, 7, 8, 9, 10, 9, 10, 11, 12, 7, 13, 14, 13])
 _TASK = st.sampled_from([0, 1, 2, 3] * 4 + list(range(4, 24)))
 _TASKS = st.lists(_TASK, max_size=2)
 _SOME_TASKS = st.one_of(st.just([]), _TASKS)
@@ -266,6 +266,12 @@ def _make_funcs():
     # tripoli4.use.using_parse_result(factory, batch_number) builds for two batch numbers
     part2 = functools.partial(_tagged, 'alpha#partial2')
     functools.update_wrapper(part2, first)
+    # partial applications whose positional arguments are a strict prefix / extension of those
+    # of ``part`` (same function, same keywords)
+    part3 = functools.partial(_tagged, 'alpha#partial', 'more')
+    functools.update_wrapper(part3, first)
+    part4 = functools.partial(_tagged, 'alpha#partial', 'more', 'and more')
+    functools.update_wrapper(part4, first)
     # two evaluations of ONE nested definition capturing different values (what a helper that
     # builds the function to wrap returns: same code object, same name, different closure),
     # and two evaluations of one definition with different default values
@@ -281,7 +287,7 @@ def _make_funcs():
     return [first, second, beta, lam0, lam1, _QualnameOnly('gamma#0', 'gamma'),
             _QualnameOnly('gamma#1', 'gamma'), part, part2,
             closing('delta#0'), closing('delta#1'), defaulting('epsilon#0'),
-            defaulting('epsilon#1')]
+            defaulting('epsilon#1'), part3, part4]
 
 
 def _fname(func):
